@@ -28,6 +28,7 @@ import (
 	"flag"
 	"fmt"
 	"os"
+	"regexp"
 	"runtime"
 	"sort"
 	"strconv"
@@ -115,7 +116,54 @@ func showValue(v starlark.Value) string {
 
 type config [][]op
 
+// Several caches may be in play: an op's `key` is cacheIndex*cacheStride + the key proper, so everything that is
+// counted or judged per key is counted and judged per (cache, key). Streams with a single cache use index 0.
+const cacheStride = 1000000
+
+func keyName(k int) string { return fmt.Sprintf("k%d", k%cacheStride) }
+func cacheIdx(k int) int   { return k / cacheStride }
+
+func (c config) nCaches() int {
+	n := 1
+	for _, p := range c {
+		for _, o := range p {
+			if cacheIdx(o.key)+1 > n {
+				n = cacheIdx(o.key) + 1
+			}
+		}
+	}
+	return n
+}
+
+// a sequence too long to print: `manykeys:<n>` is n distinct keys computed one after the other in one cache, then a
+// sample of the early keys asked for again
+func manyKeysConfig(n int) config {
+	var p []op
+	for k := 0; k < n; k++ {
+		p = append(p, op{key: k, val: k + 1})
+	}
+	for i := 0; i < 60; i++ {
+		k := (i * 37) % 1500
+		if i >= 30 {
+			k = (n / 2) + i
+		}
+		if k < n {
+			p = append(p, op{key: k, val: 10*n + i})
+		}
+	}
+	return config{p}
+}
+
 func (c config) String() string {
+	if len(c) == 1 && len(c[0]) > 2000 {
+		n := 0
+		for _, o := range c[0] {
+			if o.key+1 > n {
+				n = o.key + 1
+			}
+		}
+		return fmt.Sprintf("manykeys:%d", n)
+	}
 	var ts []string
 	for _, p := range c {
 		if len(p) == 0 {
@@ -138,6 +186,13 @@ func (c config) String() string {
 }
 
 func parseConfig(s string) (config, error) {
+	if strings.HasPrefix(s, "manykeys:") {
+		n, err := strconv.Atoi(strings.TrimPrefix(s, "manykeys:"))
+		if err != nil {
+			return nil, err
+		}
+		return manyKeysConfig(n), nil
+	}
 	var c config
 	for _, t := range strings.Split(s, ";") {
 		var p []op
@@ -330,7 +385,9 @@ var snippetProg = func() *starlark.Program {
 }()
 
 // one caller goroutine: its ops, each through the real Starlark builtin
-func (r *run) caller(t *thr, prog []op, cache starlark.Value) {
+func (r *run) caller(t *thr, prog []op, caches []starlark.Value) {
+	// one Starlark thread per caller for all its calls, as a module or a target body has
+	th := &starlark.Thread{Name: fmt.Sprintf("caller%d", t.id)}
 	if !r.controlled {
 		g := gid()
 		r.mu.Lock()
@@ -362,9 +419,8 @@ func (r *run) caller(t *thr, prog []op, cache starlark.Value) {
 			r.emit(t, fmt.Sprintf("callok.%d", o.val))
 			return produced, nil
 		})
-		th := &starlark.Thread{Name: fmt.Sprintf("caller%d", t.id)}
 		g, err := snippetProg.Init(th, starlark.StringDict{
-			"cache": cache, "KEY": starlark.String(fmt.Sprintf("k%d", o.key)), "probe": probe})
+			"cache": caches[cacheIdx(o.key)], "KEY": starlark.String(keyName(o.key)), "probe": probe})
 		rt := ret{tid: t.id, key: o.key, invoked: invoked}
 		r.mu.Lock()
 		if err != nil {
@@ -406,7 +462,7 @@ type result struct {
 	trace    []string
 	final    string
 	byThread string
-	cache    starlark.Value
+	caches   []starlark.Value
 	r        *run
 	probes   map[int]keyProbe // one more sequential once(key, …) per key after the run, through the public builtin only
 }
@@ -422,7 +478,8 @@ type keyProbe struct {
 
 const probeTimeout = 3 * time.Second
 
-func probeKeys(c config, cache starlark.Value) map[int]keyProbe {
+func probeKeys(c config, caches []starlark.Value) map[int]keyProbe {
+	probeThread := &starlark.Thread{Name: "probe"} // one thread for all probes, like a body that asks several caches
 	ps := map[int]keyProbe{}
 	for _, k := range c.keys() {
 		ch := make(chan keyProbe, 1)
@@ -432,8 +489,8 @@ func probeKeys(c config, cache starlark.Value) map[int]keyProbe {
 				kp.invoked = true
 				return starlark.MakeInt(999), nil
 			})
-			g, err := snippetProg.Init(&starlark.Thread{Name: "probe"}, starlark.StringDict{
-				"cache": cache, "KEY": starlark.String(fmt.Sprintf("k%d", k)), "probe": probe})
+			g, err := snippetProg.Init(probeThread, starlark.StringDict{
+				"cache": caches[cacheIdx(k)], "KEY": starlark.String(keyName(k)), "probe": probe})
 			if err != nil {
 				kp.err = err.Error()
 			} else {
@@ -475,6 +532,14 @@ func newCache() starlark.Value {
 	return c
 }
 
+func newCaches(c config) []starlark.Value {
+	var cs []starlark.Value
+	for i := 0; i < c.nCaches(); i++ {
+		cs = append(cs, newCache())
+	}
+	return cs
+}
+
 func newRun(controlled bool) *run {
 	return &run{controlled: controlled, byGid: map[int64]*thr{}, parked: make(chan parkMsg, 64),
 		okCalls: map[int][]int{}, okVals: map[int][]starlark.Value{}, failCalls: map[int]int{}}
@@ -486,13 +551,13 @@ const stepWatchdog = 60 * time.Second
 func runControlled(c config, choose chooser) *result {
 	r := newRun(true)
 	cur = r
-	cache := newCache()
+	cache := newCaches(c)
 	ths := make([]*thr, len(c))
 	for i := range c {
 		ths[i] = &thr{id: i, resume: make(chan struct{})}
 		go r.caller(ths[i], c[i], cache)
 	}
-	res := &result{cache: cache, r: r}
+	res := &result{caches: cache, r: r}
 	wait := func() bool {
 		select {
 		case m := <-r.parked:
@@ -571,7 +636,7 @@ func runNoHookFrozen(c config, timeout time.Duration) *result {
 func runFreeT(c config, timeout time.Duration) *result {
 	r := newRun(false)
 	cur = r
-	cache := newCache()
+	cache := newCaches(c)
 	var wg sync.WaitGroup
 	start := make(chan struct{})
 	for i := range c {
@@ -586,7 +651,7 @@ func runFreeT(c config, timeout time.Duration) *result {
 	close(start)
 	done := make(chan struct{})
 	go func() { wg.Wait(); close(done) }()
-	res := &result{cache: cache, r: r, outcome: "done"}
+	res := &result{caches: cache, r: r, outcome: "done"}
 	select {
 	case <-done:
 	case <-time.After(timeout):
@@ -620,7 +685,7 @@ func (res *result) finish(c config) {
 	// the cache's content is observed through the builtin itself (no access to the representation): a later call
 	// that does not invoke its callable returns what is cached
 	r.mu.Unlock()
-	res.probes = probeKeys(c, res.cache)
+	res.probes = probeKeys(c, res.caches)
 	r.mu.Lock()
 	for _, kp := range res.probes {
 		if kp.hung {
@@ -659,6 +724,8 @@ func (res *result) finish(c config) {
 }
 
 // ---------------------------------------------------------------- the judge (the property's own predicate)
+var keyRe = regexp.MustCompile(`key \d+`)
+
 var hangsFound = 0 // real hangs (confirmed without hooks); after a few the remaining streams are pointless
 
 var (
@@ -673,8 +740,20 @@ func violation(kind string, c config, res *result, detail string, mode string) {
 	if nviol > 10 {
 		return
 	}
+	// keys at or above cacheStride are (cache, key) pairs
+	detail = keyRe.ReplaceAllStringFunc(detail, func(m string) string {
+		n, _ := strconv.Atoi(strings.TrimPrefix(m, "key "))
+		if n >= cacheStride {
+			return fmt.Sprintf("key %d of cache #%d (op key %d)", n%cacheStride, n/cacheStride, n)
+		}
+		return m
+	})
 	in := map[string]any{"progs": c.String(), "mode": mode, "schedule": res.choices}
-	b, _ := json.Marshal(map[string]any{"kind": kind, "detail": detail, "trace": strings.Join(res.trace, ","), "input": in})
+	tr := strings.Join(res.trace, ",")
+	if len(tr) > 4000 {
+		tr = "…" + tr[len(tr)-4000:]
+	}
+	b, _ := json.Marshal(map[string]any{"kind": kind, "detail": detail, "trace": tr, "input": in})
 	fmt.Fprintf(out, "V\t%s\n", b)
 	out.Flush()
 }
@@ -888,7 +967,11 @@ func main() {
 		if in.Mode == "project" {
 			replayProject(in.Progs)
 		} else if in.Mode == "nohook" || in.Mode == "nohook-frozen" {
-			for i := 0; i < 2000 && nviol == 0; i++ {
+			reps := 2000
+			if strings.HasPrefix(in.Progs, "manykeys:") {
+				reps = 3
+			}
+			for i := 0; i < reps && nviol == 0; i++ {
 				if in.Mode == "nohook-frozen" {
 					judge(c, runNoHookFrozen(c, 10*time.Second), in.Mode)
 				} else {
@@ -955,12 +1038,55 @@ func main() {
 			}
 		}
 	}
+	// two caches sharing key names, asked by one thread (two module-level Cache() objects, or Cache() in two modules):
+	// every sequence up to length 3 over 2 caches x 2 keys x ok/fail, and up to length 4 over 2 caches x 1 key
+	multi := func(nkeys, maxLen int) {
+		var rec func(p []op)
+		rec = func(p []op) {
+			if len(p) > 0 && hangsFound < 3 {
+				c := copyConfig(p)
+				stats["nohook_sequential_multicache"]++
+				judge(c, runNoHook(c, 2*time.Second), "nohook")
+			}
+			if len(p) == maxLen {
+				return
+			}
+			for ci := 0; ci < 2; ci++ {
+				for k := 0; k < nkeys; k++ {
+					for _, f := range []bool{false, true} {
+						rec(append(append([]op{}, p...), op{key: ci*cacheStride + k, fail: f}))
+					}
+				}
+			}
+		}
+		rec(nil)
+	}
+	multi(2, 3)
+	multi(1, 4)
+	// many keys in one cache: nothing is ever forgotten
+	for _, n := range []int{5000, 70000} {
+		if hangsFound >= 3 {
+			break
+		}
+		c := manyKeysConfig(n)
+		stats["nohook_manykeys_ops"] += len(c[0])
+		judge(c, runNoHook(c, 60*time.Second), "nohook")
+	}
 	nNoHook := 3000
 	if thorough {
 		nNoHook = 60000
 	}
 	for i := 0; i < nNoHook && hangsFound < 3; i++ {
 		c := randomConfig(r, 8, 4, 3)
+		if i%4 == 0 {
+			// up to three caches sharing the key names
+			for t := range c {
+				for j := range c[t] {
+					c[t][j].key += r.below(3) * cacheStride
+				}
+			}
+			stats["nohook_concurrent_multicache"]++
+		}
 		if i%2 == 1 {
 			for t := range c {
 				for j := range c[t] {
@@ -1150,9 +1276,11 @@ func exhaustiveSampled(c config, max, traceEvery, ci int) (int, bool, map[string
 // through a builtin of LoadOptions.Builtins; the project is built with Project.Run (the runner evaluates independent
 // targets in parallel). Judge: per key at most one successful invocation in the process, all targets see its value.
 type projSpec struct {
-	Targets []int `json:"targets"` // key used by each target body
-	Pre     []int `json:"pre"`     // keys computed while the module loads
-	Keys    int   `json:"keys"`
+	// per target body: the (cache, key) pairs it asks for, in order, encoded cache*100+key
+	Targets [][]int `json:"targets"`
+	Pre     []int   `json:"pre"` // (cache, key) pairs computed while the module loads
+	Keys    int     `json:"keys"`
+	Caches  int     `json:"caches"` // module-level Cache() objects in BUILD.dawn
 }
 
 func (p projSpec) String() string {
@@ -1162,16 +1290,26 @@ func (p projSpec) String() string {
 
 func (p projSpec) build() string {
 	var b strings.Builder
-	b.WriteString("cache = Cache()\n\n")
-	for k := 0; k < p.Keys; k++ {
-		fmt.Fprintf(&b, "def compute%d():\n    return count(\"k%d\")\n\n", k, k)
+	for c := 0; c < p.Caches; c++ {
+		fmt.Fprintf(&b, "cache%d = Cache()\n", c)
 	}
-	for _, k := range p.Pre {
-		fmt.Fprintf(&b, "record(\"load\", \"k%d\", cache.once(\"k%d\", compute%d))\n", k, k, k)
+	for c := 0; c < p.Caches; c++ {
+		for k := 0; k < p.Keys; k++ {
+			fmt.Fprintf(&b, "\ndef compute%d_%d():\n    return count(\"c%dk%d\")\n", c, k, c, k)
+		}
+	}
+	b.WriteString("\n")
+	for _, ck := range p.Pre {
+		c, k := ck/100, ck%100
+		fmt.Fprintf(&b, "record(\"load\", \"c%dk%d\", cache%d.once(\"k%d\", compute%d_%d))\n", c, k, c, k, c, k)
 	}
 	var deps []string
-	for i, k := range p.Targets {
-		fmt.Fprintf(&b, "\n@target(name=\"t%d\")\ndef t%d():\n    record(\"t%d\", \"k%d\", cache.once(\"k%d\", compute%d))\n", i, i, i, k, k, k)
+	for i, cks := range p.Targets {
+		fmt.Fprintf(&b, "\n@target(name=\"t%d\")\ndef t%d():\n", i, i)
+		for _, ck := range cks {
+			c, k := ck/100, ck%100
+			fmt.Fprintf(&b, "    record(\"t%d\", \"c%dk%d\", cache%d.once(\"k%d\", compute%d_%d))\n", i, c, k, c, k, c, k)
+		}
 		deps = append(deps, fmt.Sprintf("\":t%d\"", i))
 	}
 	fmt.Fprintf(&b, "\n@target(name=\"default\", deps=[%s])\ndef default():\n    pass\n", strings.Join(deps, ", "))
@@ -1251,23 +1389,32 @@ func runProject(p projSpec) {
 	}
 	mu.Lock()
 	defer mu.Unlock()
-	callers := 0
-	for k := 0; k < p.Keys; k++ {
-		key := fmt.Sprintf("k%d", k)
-		callers += len(seen[key])
-		if calls[key] > 1 {
-			fail("computed-twice", fmt.Sprintf("key %s: the callable ran %d times in one build; callers saw %v", key, calls[key], seen[key]))
-		}
-		vals := map[string]bool{}
-		for _, sv := range seen[key] {
-			vals[sv[strings.Index(sv, "=")+1:]] = true
-		}
-		if len(vals) > 1 {
-			fail("different-value", fmt.Sprintf("key %s: callers saw %v", key, seen[key]))
+	callers, want := 0, len(p.Pre)
+	for _, cks := range p.Targets {
+		want += len(cks)
+	}
+	for c := 0; c < p.Caches; c++ {
+		for k := 0; k < p.Keys; k++ {
+			key := fmt.Sprintf("c%dk%d", c, k) // judged per (cache, key)
+			callers += len(seen[key])
+			if calls[key] > 1 {
+				fail("computed-twice", fmt.Sprintf("%s: the callable ran %d times in one build; callers saw %v", key, calls[key], seen[key]))
+			}
+			vals := map[string]bool{}
+			for _, sv := range seen[key] {
+				v := sv[strings.Index(sv, "=")+1:]
+				vals[v] = true
+				if !strings.HasPrefix(v, "\""+key+"#") {
+					fail("different-value", fmt.Sprintf("%s: a caller was handed %s, which is not a result of this cache's callable for this key; callers saw %v", key, v, seen[key]))
+				}
+			}
+			if len(vals) > 1 {
+				fail("different-value", fmt.Sprintf("%s: callers saw %v", key, seen[key]))
+			}
 		}
 	}
-	if callers != len(p.Targets)+len(p.Pre) {
-		fail("project-incomplete", fmt.Sprintf("%d of %d calls of once were made", callers, len(p.Targets)+len(p.Pre)))
+	if callers != want {
+		fail("project-incomplete", fmt.Sprintf("%d of %d calls of once were made", callers, want))
 	}
 	stats["project_once_calls"] += callers
 }
@@ -1279,14 +1426,25 @@ func projectStream(r *rng, thorough bool) {
 		n = 1500
 	}
 	for i := 0; i < n && hangsFound < 3; i++ {
-		p := projSpec{Keys: 1 + r.below(3)}
+		p := projSpec{Keys: 1 + r.below(3), Caches: 1 + r.below(3)}
 		nt := 2 + r.below(7)
 		for j := 0; j < nt; j++ {
-			p.Targets = append(p.Targets, r.below(p.Keys))
+			// a body asks one to three (cache, key) pairs; often the same key of several caches
+			var cks []int
+			k := r.below(p.Keys)
+			for n := 1 + r.below(3); n > 0; n-- {
+				cks = append(cks, r.below(p.Caches)*100+k)
+				if r.below(3) == 0 {
+					k = r.below(p.Keys)
+				}
+			}
+			p.Targets = append(p.Targets, cks)
 		}
-		for k := 0; k < p.Keys; k++ {
-			if r.below(3) == 0 {
-				p.Pre = append(p.Pre, k)
+		for c := 0; c < p.Caches; c++ {
+			for k := 0; k < p.Keys; k++ {
+				if r.below(4) == 0 {
+					p.Pre = append(p.Pre, c*100+k)
+				}
 			}
 		}
 		runProject(p)
